@@ -81,6 +81,7 @@ CLAIMED = {
              "builds without debug assertions are covered by the C16 reduction (every overflow check and debug_assert is proved, so removing them changes nothing).",
         technique="CBMC memory-safety checks over symbolic states and arguments (SAT)", design="5 C02"),
     "C03": dict(
+        engine="E1-kani + E2-mirsym",
         text="Bounded model checking, inductive form: from arbitrary shared states with a symbolic reference count every operation changes the "
              "count by exactly the number of handles created/destroyed, storage is freed iff the count was 1 (CBMC use-after-free/double-free checks "
              "plus --memory-leak-check after the harness releases the ghost references), in either drop order of the handles the operation produced. "
@@ -94,10 +95,12 @@ CLAIMED = {
              "contents/length unchanged and the region inside one live allocation, false => (ptr,len,cap,data) bit-identical; reserve: promise kept "
              "on the in-place, shift-to-front, grow and move-to-new-buffer paths (growth sizes concrete), unrepresentable totals never return. "
              "Splits: halves disjoint, in bounds, write probe into one half's spare capacity invisible through the other; unique Bytes->BytesMut "
-             "gets capacity exactly up to the allocation end.",
+             "gets capacity exactly up to the allocation end. "
+             "Plus an SMT path-condition query (E2 + z3) on try_unsplit's MIR: the zero-copy merge is reachable only under both kind()==KIND_ARC tests, "
+             "adjacency ptr+len==other.ptr and equality of the two data words (two handles that merely sit on adjacent allocations are never glued).",
         note=COMMON_NOTE + "Allocation of 8 bytes (CBMC does not decide symbolic offsets into objects > 64 bytes); capacity classes >= 1 KiB only "
              "through a symbolic original_capacity_repr field (over-approximation of reachable states for that one branch).",
-        technique="Kani/CBMC inductive step, request sizes over all usize, allocator-event ledger stubs (SAT)", design="5 C04"),
+        engine="E1-kani + E2-mirsym", technique="Kani/CBMC inductive step, request sizes over all usize, allocator-event ledger stubs (SAT); z3 path-condition query over the MIR of try_unsplit", design="5 C04"),
     "C07": dict(
         text="Bounded model checking: in every step harness each produced non-empty handle is asserted to start at the source pointer plus its "
              "logical offset (pointer equality inside one CBMC object) for clone, slice, split_off, split_to, split, truncate, advance, freeze "
@@ -114,6 +117,7 @@ CLAIMED = {
         note=COMMON_NOTE + "Allocation sizes 4/8 bytes.",
         technique="Kani/CBMC step harnesses with symbolic reference counts and allocator-event ledger (SAT)", design="5 C08"),
     "C13": dict(
+        engine="E1-kani + E2-mirsym",
         text="Bounded model checking of clause (i): for every safe method with a contract (slice, slice_ref, split_off, split_to, advance, advance_mut, "
              "resize/reserve with unrepresentable sizes, typed get/put on short buffers, nbytes > 8) the argument is symbolic over the ENTIRE "
              "out-of-contract region; the only check allowed to fail is the method's contract panic, the call must not return, and all memory-safety "
@@ -179,7 +183,7 @@ CLAIMED = {
              "by the memory model contains a buffer access that is not happens-before the buffer's deallocation, an access to a control block not "
              "happens-before its deallocation, two conflicting non-atomic buffer accesses that are hb-unordered (a reader vs. the party that took "
              "the buffer and mutates it), or an atomic access to a freshly allocated control block not ordered after its initialisation. The "
-             "memory orderings are READ FROM THE MIR of the working tree on every run, so weakening any Release/Acquire/AcqRel changes the encoding.",
+             "memory orderings are READ FROM THE MIR of the working tree on every run, so weakening any Release/Acquire/AcqRel changes the encoding; atomic::fence calls become fence events with the RC11 fence rules, so an equivalent fence-based formulation is accepted.",
         note=COMMON_NOTE + "Same abstraction as C05 part 2. Validated on every change by mutants (Release->Relaxed in release_shared, Acquire->Relaxed "
              "in shared_to_mut_impl / Shared::is_unique, AcqRel->Relaxed promotion CAS, non-atomic decrement) which turn queries sat.",
         technique="SMT (z3) RC11 happens-before encoding over atomic skeletons extracted from rustc MIR", design="5 C06"),
@@ -228,10 +232,10 @@ m = {
     "engines": [
         {"name": "E1-kani", "path": "bin/check, bin/vlib.py, kani/ext, kani/incrate, gen/", "serves_properties": sorted(k for k in CLAIMED if k != "C06"),
          "kind_free_text": KANI},
-        {"name": "E2-mirsym", "path": "bin/mirsym.py, bin/pathq.py", "serves_properties": ["C03", "C05", "C06", "C13"],
+        {"name": "E2-mirsym", "path": "bin/mirsym.py, bin/pathq.py", "serves_properties": ["C03", "C04", "C05", "C06", "C13"],
          "kind_free_text": "path-wise symbolic walk of the nightly -Zunpretty=mir dump of /repo (regenerated per run): atomic skeletons with orderings, guards and non-atomic effects; CFG path queries"},
         {"name": "E3-rc11", "path": "bin/rc11.py, bin/rc11_run.py", "serves_properties": ["C05", "C06"],
-         "kind_free_text": "bounded axiomatic C11 (RC11 without SC) model checking in z3: symbolic rf/mo, release sequences, sw, hb closure, coherence, no-thin-air"},
+         "kind_free_text": "bounded axiomatic C11 (RC11 without SC) model checking in z3: symbolic rf/mo, release sequences, sw (incl. release/acquire fences), hb closure, coherence, no-thin-air"},
     ],
     "checks": checks,
     "not_applicable": na,
